@@ -253,7 +253,7 @@ def abstract_ka(s):
     """keep-alive projection with the virtual clock (lean/Mqtt5V/Model/TraceKA.lean):
       c:<k> keep_alive configured    r async_run     U:<ska|-> CONNACK of a new connection (its Server Keep Alive)    f a read ended with try_again
       t:<ms> time passes             d:<ms|-> a read starts with this time-out       w:<ping>:<terminal> a write starts (carries a PINGREQ / is a DISCONNECT alone)
-      K / F / A the write ends ok / try_again / aborted        x the client closed      e end of the script line (the execution context is drained)"""
+      K / F / A / N the write ends ok / try_again / aborted / no_recovery        x the client closed      e end of the script line (the execution context is drained)"""
     toks = []
     for line, evs, st, t in s.tr:
         ws = line.split()
@@ -267,7 +267,7 @@ def abstract_ka(s):
             ska = M.plist_parse(ws[3]).get(0x13, [None])[0]
             toks.append(f"U:{ska if ska is not None else '-'}")
         elif cmd == "rdone" and len(ws) > 2 and ws[2] == "try_again": toks.append("f")
-        elif cmd == "wdone": toks.append("K" if ws[2] == "ok" else "F" if ws[2] == "try_again" else "A")
+        elif cmd == "wdone": toks.append("K" if ws[2] == "ok" else "F" if ws[2] == "try_again" else "N" if ws[2] == "no_recovery" else "A")
         elif cmd == "advance": toks.append(f"t:{int(ws[1])}")
         for e in evs:
             es = e.split()
